@@ -27,6 +27,7 @@ use crate::budget::EnforcingPolicy;
 use crate::de::{Ev, Events};
 use crate::live_events::LiveEvents;
 use crate::parse_scalars::scalar_is_nullish;
+use crate::tags::SfTag;
 pub use crate::serializer_options::SerializerOptions;
 use serde::de::DeserializeOwned;
 use std::io::Read;
@@ -584,8 +585,11 @@ where
         match src.peek()? {
             // Skip documents that are explicit null-like scalars ("", "~", or "null").
             Some(Ev::Scalar {
-                value: s, style, ..
-            }) if scalar_is_nullish(s, style) => {
+                value: s,
+                style,
+                tag,
+                ..
+            }) if scalar_is_nullish(s, style) && *tag != SfTag::String => {
                 let _ = src.next()?; // consume the null scalar document
                 continue;
             }
@@ -816,9 +820,9 @@ where
             }
             loop {
                 match self.src.peek() {
-                    Ok(Some(Ev::Scalar { value, style, .. }))
-                        if scalar_is_nullish(value, style) =>
-                    {
+                    Ok(Some(Ev::Scalar {
+                        value, style, tag, ..
+                    })) if scalar_is_nullish(value, style) && *tag != SfTag::String => {
                         // Consume the null document. The event source re-checks the
                         // reader for a stored I/O error here, so the result must not be
                         // dropped: it is the only place that error would surface.
@@ -980,8 +984,11 @@ where
         match src.peek()? {
             // Skip documents that are explicit null-like scalars ("", "~", or "null").
             Some(Ev::Scalar {
-                value: s, style, ..
-            }) if scalar_is_nullish(s, style) => {
+                value: s,
+                style,
+                tag,
+                ..
+            }) if scalar_is_nullish(s, style) && *tag != SfTag::String => {
                 let _ = src.next()?; // consume the null scalar document
                 continue;
             }
@@ -1202,9 +1209,9 @@ where
             }
             loop {
                 match self.src.peek() {
-                    Ok(Some(Ev::Scalar { value, style, .. }))
-                        if scalar_is_nullish(value, style) =>
-                    {
+                    Ok(Some(Ev::Scalar {
+                        value, style, tag, ..
+                    })) if scalar_is_nullish(value, style) && *tag != SfTag::String => {
                         // Consume the null document. The event source re-checks the
                         // reader for a stored I/O error here, so the result must not be
                         // dropped: it is the only place that error would surface.
@@ -1400,8 +1407,11 @@ pub fn from_multiple_with_options<T: DeserializeOwned>(
         match src.peek()? {
             // Skip documents that are explicit null-like scalars ("", "~", or "null").
             Some(Ev::Scalar {
-                value: s, style, ..
-            }) if scalar_is_nullish(s, style) => {
+                value: s,
+                style,
+                tag,
+                ..
+            }) if scalar_is_nullish(s, style) && *tag != SfTag::String => {
                 let _ = src.next()?; // consume the null scalar document
                 // Do not push anything for this document; move to the next one.
                 continue;
@@ -1942,9 +1952,9 @@ where
             }
             loop {
                 match self.src.peek() {
-                    Ok(Some(Ev::Scalar { value, style, .. }))
-                        if scalar_is_nullish(value, style) =>
-                    {
+                    Ok(Some(Ev::Scalar {
+                        value, style, tag, ..
+                    })) if scalar_is_nullish(value, style) && *tag != SfTag::String => {
                         // Consume the null document. The event source re-checks the
                         // reader for a stored I/O error here, so the result must not be
                         // dropped: it is the only place that error would surface.
